@@ -1005,4 +1005,79 @@ Proof.
   apply app_eq_nil in E1 as [_ E1]. contradiction.
 Qed.
 
+Lemma run_ne_boundary fits s rs s2 o : run fits s rs s2 o -> rs <> [] -> exists ph, boundary_phase s = Some ph.
+Proof. destruct 1; [congruence|]. intros _. eexists; eassumption. Qed.
+
+(* never stuck, never done early: every proper prefix of the wire of a run *)
+Lemma run_prefix cap s0 rs s2 o : 24 <= cap -> run (rec_fits cap) s0 rs s2 o ->
+  forall s, state_ok s -> settle s = s0 -> sbuf s + len (enc_rcds rs) < SIZE_LIMIT ->
+  forall k, k < len (enc_rcds rs) ->
+  exists rest s1 o1, drive_all norm maxc s (take k (enc_rcds rs)) = DOk rest s1 o1 /\ len rest < cap /\
+                     is_final s1 = false.
+Proof.
+  intros Hc. induction 1 as [s0|s0 r s' t s2 o ph Hb Hr Hf Hs Ht IH]; intros s Hok Hse Hsz k Hk.
+  { cbn [enc_rcds flat_map] in Hk. rewrite len_nil in Hk. lia. }
+  rewrite enc_rcds_cons in *. rewrite len_app in Hsz, Hk.
+  assert (Hsm : state_small s) by (apply state_small_sbuf; lia).
+  subst s0.
+  destruct (N.ltb_spec k (len (enc_rcd r))) as [Hlt|Hge].
+  - rewrite take_app_le by lia.
+    apply (partial_rec cap s r ph (take k (enc_rcd r)) (drop k (enc_rcd r))); try assumption.
+    + eexists; exact Hs.
+    + symmetry; apply take_drop.
+    + apply len_pos_ne. rewrite len_drop. lia.
+  - rewrite take_app_ge by exact Hge.
+    pose proof (rec_step_settle s r ph Hok Hsm Hb Hr) as H1. rewrite Hs in H1.
+    destruct H1 as (s1 & Hd & Hs1 & Hok1 & Hb1 & _).
+    assert (Hbl : len (rbody r) <= len (enc_rcd r)) by (rewrite len_enc_rcd; lia).
+    assert (Htne : t <> []).
+    { intros ->. cbn [enc_rcds flat_map] in Hk. rewrite len_nil in Hk. lia. }
+    destruct (N.eqb_spec (k - len (enc_rcd r)) 0) as [E0|E0].
+    + rewrite E0, take_0, app_nil_r. exists [], s1, (reply_for maxc ph r). split; [exact Hd|].
+      split; [rewrite len_nil; lia|]. apply settle_final. rewrite Hs1.
+      destruct (run_ne_boundary _ _ _ _ _ Ht Htne) as [ph' Hb']. apply (boundary_settled _ _ Hb').
+    + destruct (IH s1 Hok1 Hs1 ltac:(lia) (k - len (enc_rcd r)) ltac:(lia)) as (rest & s3 & o3 & Hd3 & Hl3 & Hf3).
+      assert (Hbt : bytes_ok (enc_rcds t)) by (apply bytes_ok_enc_rcds; apply (run_rcd_ok _ _ _ _ _ Ht)).
+      exists rest, s3, (reply_for maxc ph r ++ o3). rewrite HA; try assumption.
+      * rewrite Hd. cbn [app]. rewrite Hd3. repeat split; assumption.
+      * apply bytes_ok_enc_rcd; exact Hr.
+      * apply bytes_ok_take; exact Hbt.
+      * apply len_pos_ne. rewrite len_take. lia.
+      * rewrite len_app, len_take. lia.
+Qed.
+
+(* ---- the undecoded tail of any prefix of an encoded pair list is short ---- *)
+Lemma app_split_ge {A} (a b x y : list A) : a ++ b = x ++ y -> len a <= len x ->
+  exists x', x = a ++ x' /\ b = x' ++ y.
+Proof.
+  intros H Hl. exists (drop (len a) x). split.
+  - rewrite <- (take_drop (len a) x) at 1. f_equal.
+    transitivity (take (len a) (x ++ y)); [rewrite take_app_le by lia; reflexivity|].
+    rewrite <- H. apply take_len_app.
+  - transitivity (drop (len a) (a ++ b)); [symmetry; apply drop_len_app|].
+    rewrite H. apply drop_app_le. exact Hl.
+Qed.
+
+Lemma nv_prefix_bound cap ps : Forall pair_ok ps -> Forall (pair_fits cap) ps -> 0 < cap ->
+  forall e x y, nv_write_all ps = Some e -> e = x ++ y -> len (snd (nv_run x)) < cap.
+Proof.
+  intros Hok. induction Hok as [|[n v] t [Hn Hv] Ht IH]; intros Hfit Hc e x y He Hxy.
+  - cbn [nv_write_all] in He. injection He as <-. symmetry in Hxy. apply app_eq_nil in Hxy as [-> _].
+    cbn. exact Hc.
+  - cbn [fst snd] in Hn, Hv. cbn [nv_write_all] in He. rewrite nv_write_some in He by assumption.
+    destruct (nv_write_all t) as [et|] eqn:Et; [|discriminate]. injection He as <-.
+    inversion Hfit as [|? ? Hf1 Hf2]; subst. unfold pair_fits in Hf1. cbn [fst snd] in Hf1.
+    set (en := vi_write (len n) ++ vi_write (len v) ++ n ++ v) in *.
+    assert (Hen : len en <= 8 + len n + len v).
+    { unfold en. rewrite !len_app. pose proof (vi_write_len _ Hn) as L1. pose proof (vi_write_len _ Hv) as L2.
+      destruct (len n <? 128), (len v <? 128); lia. }
+    destruct (N.ltb_spec (len x) (len en)) as [Hlt|Hge].
+    + pose proof (nv_run_rest_len x). lia.
+    + destruct (app_split_ge en et x y Hxy Hge) as (x' & Ex & Ey).
+      assert (Enx : nv_next x = Some (n, v, x')).
+      { rewrite Ex. unfold en. rewrite <- !app_assoc. apply nv_next_write; assumption. }
+      rewrite nv_run_unfold, Enx. specialize (IH Hf2 Hc et x' y eq_refl Ey).
+      destruct (nv_run x') as [ps' rest']. exact IH.
+Qed.
+
 End Records.
